@@ -486,6 +486,9 @@ type replica struct {
 	valset   map[string]int64           // consensus set folded from InitChain/EndBlock updates: hex(pubkey) -> power
 	valHist  map[int64]map[string]int64 // the folded set as it stood after each block (evidence carries the power at the infraction height)
 	valHist0 map[string]int64           // the set InitChain returned
+	nowHdr   abci.Header                // header of the off-chain context of height nowHdrH (see ctxNow)
+	nowHdrH  int64
+	nowHdrOK bool
 	valAddr  map[string]string
 	results  []BlockRes
 	genesis  app.GenesisState
@@ -789,8 +792,14 @@ func (r *replica) ctxNow() sdk.Context {
 	// the context a running node hands to dispatch / relay / query code: PocketCoreApp.NewContext(last height), whose
 	// header is the one PrevCtx rebuilds from the block store (the session block hash is a hash of that header, so a
 	// differently assembled header would give the off-chain side other sessions than claim validation regenerates)
+	if r.nowHdrOK && r.nowHdrH == r.height {
+		return sdk.NewContext(r.app.Store(), r.nowHdr, false, bufLogger{r.logbuf}).WithBlockStore(r.bs).WithAppVersion(app.AppVersion)
+	}
 	if r.bs.LoadBlockMeta(r.height) != nil {
 		if ctx, err := r.app.NewContext(r.height); err == nil {
+			// (the header only depends on the height: evaluators that ask for a context thousands of times per state do
+			// not pay for a lazily loaded store version each time)
+			r.nowHdr, r.nowHdrH, r.nowHdrOK = ctx.BlockHeader(), r.height, true
 			// same header; the multistore stays the application's own (the lazily loaded version view has no
 			// transient stores, which evaluators that write parameters on a cache branch need)
 			return sdk.NewContext(r.app.Store(), ctx.BlockHeader(), false, bufLogger{r.logbuf}).WithBlockStore(r.bs).WithAppVersion(app.AppVersion)
